@@ -13,13 +13,13 @@ variable (cfg : Cfg) (sfh : Bool)
     left-hand type too). -/
 def Ty.TG (sfh : Bool) (t : Ty) : Prop :=
   match t with
-  | .unit | .data | .richData | .iterable _ => False
+  | .unit | .data | .richData => False
   | .struct ms => sfh = false ∧ NamesNodup ms ∧ ∀ m, ∀ (_ : m ∈ ms), Ty.TG sfh m.2.2
   | .tuple ts _ => ∀ t', ∀ (_ : t' ∈ ts), Ty.TG sfh t'
   | .array e _ => Ty.TG sfh e
   | .hash k v _ => Ty.TG sfh k ∧ Ty.TG sfh v
   | .variant ts => ∀ t', ∀ (_ : t' ∈ ts), Ty.TG sfh t'
-  | .optional t' | .notUndef t' | .sensitive t' | .typ t' => Ty.TG sfh t'
+  | .optional t' | .notUndef t' | .sensitive t' | .typ t' | .iterable t' => Ty.TG sfh t'
   | _ => True
 termination_by t.w
 decreasing_by
